@@ -764,18 +764,25 @@ def r3_grouping_key(ctx, rid):
             val = U.single_value(ctx, f, rv)
             if isinstance(val, ast.Subscript) and isinstance(val.value, ast.Name) and val.value.id == rate_list:
                 roots = set()
-                for nm in ast.walk(val.slice):
-                    if isinstance(nm, ast.Name):
-                        r = U.value_roots(ctx, f, nm)
-                        roots |= r["params"]
-                        # the group loop variable?
-                        dd = ctx.rd(f).defs_reaching(nm)
-                        for d in dd:
-                            if isinstance(d, ast.stmt):
-                                for x in ast.walk(d):
-                                    if isinstance(x, ast.Name):
-                                        if ctx.rd(f).defs_reaching(x) and any(dx is oloop for dx in ctx.rd(f).defs_reaching(x)):
-                                            roots.add("<group>")
+                # names derived from the group's own member list (the dict *value* bound by the chain loop), not from its position
+                it_, en_ = U.unwrap_enumerate(oloop.iter)
+                tgt_ = oloop.target.elts[1] if en_ and isinstance(oloop.target, ast.Tuple) and len(oloop.target.elts) == 2 else oloop.target
+                gname = tgt_.elts[1].id if isinstance(tgt_, ast.Tuple) and len(tgt_.elts) == 2 and isinstance(tgt_.elts[1], ast.Name) else None
+                if gname is None:
+                    raise AnalysisError(f"{rid}: {f.qual}: group variable of `{norm(oloop)}` not recognised")
+                derived = {gname}
+                changed_ = True
+                while changed_:
+                    changed_ = False
+                    for st_ in ast.walk(oloop):
+                        if isinstance(st_, ast.Assign) and any(isinstance(x, ast.Name) and x.id in derived for x in ast.walk(st_.value)):
+                            for t_ in st_.targets:
+                                for x in ast.walk(t_):
+                                    if isinstance(x, ast.Name) and x.id not in derived:
+                                        derived.add(x.id)
+                                        changed_ = True
+                if any(isinstance(nm, ast.Name) and nm.id in derived for nm in ast.walk(val.slice)):
+                    roots.add("<group>")
                 if "<group>" in roots:
                     ctx.ok(rid, f, _stmt(val), "the chain's rate is the rate of a slot that belongs to this group", {"value": ast.unparse(val)},
                            label="chain rate taken from own group")
